@@ -309,7 +309,8 @@ class SelectShim:
             for s in list(rlist):
                 if s.closed:
                     raise ValueError("file descriptor cannot be a negative integer (-1)")
-            out = [s for s in order if s in rlist]
+            rset = set(rlist)
+            out = [s for s in order if s in rset]
             sim.last_served = list(out)
             return out, [], []
         if not rlist and timeout is None:
